@@ -525,7 +525,12 @@ impl Session {
                 ev(json!({"e": "dump", "res": d.0, "recs": d.1, "dir": dir_listing(&self.dir)}));
             }
             "w" => {
-                let k = step["n"].as_u64().unwrap_or(1) as usize;
+                // n absent or 0: the worker of the current instance
+                let cur = self.wid.as_ref().and_then(|w| self.workers.iter().position(|x| x == w)).map(|p| p + 1).unwrap_or(self.workers.len());
+                let k = match step["n"].as_u64() {
+                    Some(n) if n > 0 => n as usize,
+                    _ => cur,
+                };
                 let r = self.wstep(k);
                 ev(json!({"e": "ws", "w": k, "at": r}));
             }
@@ -533,6 +538,44 @@ impl Session {
                 let k = step["n"].as_u64().unwrap_or(1) as usize;
                 let n = self.wrun_idle(k);
                 ev(json!({"e": "wrun", "w": k, "steps": n}));
+            }
+            "wuntil" => {
+                // step worker n until it is parked at a stop whose name starts with `at`
+                let k = step["n"].as_u64().unwrap_or(1) as usize;
+                let at = step["at"].as_str().unwrap_or("done").to_string();
+                let mut r = String::from("none");
+                let mut n = 0;
+                while n < 500 {
+                    r = self.wstep(k);
+                    n += 1;
+                    if r.starts_with(&at) || r == "blocked" || r == "exited" || r == "noworker" || r == "notparked" || r.starts_with("err") {
+                        break;
+                    }
+                }
+                ev(json!({"e": "wuntil", "w": k, "at": r, "steps": n}));
+            }
+            "readers" => {
+                // k reader threads share the store: each reads the whole range and iterates a snapshot m times
+                let k = step["k"].as_u64().unwrap_or(2);
+                let m = step["m"].as_u64().unwrap_or(3);
+                if let Some(rl) = self.rl.as_ref() {
+                    std::thread::scope(|sc| {
+                        for t in 0..k {
+                            std::thread::Builder::new()
+                                .name(format!("reader-{}", t + 1))
+                                .spawn_scoped(sc, move || {
+                                    for _ in 0..m {
+                                        let r = read_range_of(rl, 0, u64::MAX);
+                                        ev(json!({"e": "rd", "from": 0, "to": enc_u64(u64::MAX), "res": r.0, "es": r.1, "t": shim::label()}));
+                                        let lo = (t + 1) as u64;
+                                        let r = read_range_of(rl, lo, lo + 2);
+                                        ev(json!({"e": "rd", "from": enc_u64(lo), "to": enc_u64(lo + 2), "res": r.0, "es": r.1, "t": shim::label()}));
+                                    }
+                                })
+                                .unwrap();
+                        }
+                    });
+                }
             }
             "wfree" => {
                 // release worker n for good and wait until it has quit (or 2 s)
